@@ -8,13 +8,20 @@ properties.jsonl write one linearised event log per scenario; the log is replaye
 event must be enabled, name the request the model has at that position, leave the same queue contents as the real
 `_RpcThread._fifo` / event-loop ready queue, and keep the pipeline invariant.
 
-Oracle (independent of the taps and of Lean): a probe RPC object records enter/exit, executing thread and the
-caller's own sequence numbers, with a scheduler yield point at every line of the probe method:
+Requests are method calls of the probe's own `hit`, of the inherited standard RPC methods (`get_name`, `get_signals`)
+and lock-protocol requests (`is_locked`, `lock`, `unlock`, `force_unlock`): all of them are "calls on the object" and
+count in the per-(caller thread, object) issue order.  A request is identified by its `request_id`, bound to
+(caller, object, issue number) when the caller's thread hands it to `MessageRouter.send_message`.
+
+Oracle (independent of Lean and of the probe's own bookkeeping): execution records written by wrappers around
+`_RpcThread._handle_method_rpc_request` and `_RpcThread._handle_lock_rpc_request` (entry = the request starts to
+execute, in which thread), for every method and every lock action, with scheduler yield points at every line of the
+probe method, the standard methods and the lock handler:
   overlap             two enter..exit intervals on one object overlap
   order               a caller's calls are not executed as 0,1,2,… (its issue order) on that object
   duplicate-execution a call is executed twice
   phantom-execution   something is executed that was never called
-  second-thread       more than one thread executes methods of the object
+  second-thread       more than one thread executes requests of the object
 """
 from __future__ import annotations
 
@@ -92,17 +99,33 @@ class _MThread(_rt.Thread):
         s._join_thread(self, timeout, _rt.Thread.join)
 
 
+class _RunState:
+    """Per-run bookkeeping of the taps (reset by run_impl)."""
+
+    def __init__(self):
+        self.rid2key = {}    # request_id -> (caller, object, issue number)
+        self.intent = {}     # thread ident -> key of the call the scripted caller is about to make
+        self.pending = {}    # thread ident -> key issued, request message not yet seen
+
+
+RUN = _RunState()
+
+
 def _hit_key(m):
-    """(caller, object, seq) if `m` is a method request for the probe's `hit`, else None."""
+    """(caller, object, issue number) if `m` is a method or lock request addressed to a probe object ("?" if the
+    request was never bound to a scripted call), else None."""
     try:
-        if type(m).__name__ != "QMI_MethodRpcRequestMessage" or m.method_name != "hit":
+        if type(m).__name__ not in ("QMI_MethodRpcRequestMessage", "QMI_LockRpcRequestMessage"):
             return None
-        oid = m.destination_address.object_id
-        if not oid.startswith(PROBE_PREFIX) or len(m.method_args) != 2:
+        if not m.destination_address.object_id.startswith(PROBE_PREFIX):
             return None
-        return (m.method_args[0], int(oid[len(PROBE_PREFIX):]), m.method_args[1])
+        return RUN.rid2key.get(m.request_id, "?")
     except Exception:
         return None
+
+
+def _what(m) -> str:
+    return getattr(m, "method_name", None) or ("lock:" + getattr(getattr(m, "lock_action", None), "name", "?"))
 
 
 @contextlib.contextmanager
@@ -161,16 +184,43 @@ def taps():
             locals()[_n] = _other(_n)
         del _n, _other
 
-    # 1. proxy call entry
+    # 1. proxy call entry (method calls: the two helpers every proxy method forwards to; lock protocol: the future's
+    #    send_lock_rpc_request_message), and the binding of the request id in the caller's thread
+    def issue(context):
+        me = _rt.get_ident()
+        k = RUN.intent.pop(me, "?")
+        _log("issue", _me(), k, context.name)
+        RUN.pending[me] = k
+
     def mk_issue(orig):
         def call(context, addr, method_name, token, *args, **kwargs):
-            if method_name == "hit" and addr.object_id.startswith(PROBE_PREFIX) and len(args) == 2:
-                _log("issue", _me(), (args[0], int(addr.object_id[len(PROBE_PREFIX):]), args[1]), context.name)
+            if addr.object_id.startswith(PROBE_PREFIX):
+                issue(context)
             return orig(context, addr, method_name, token, *args, **kwargs)
         return call
 
     patch(R, "blocking_rpc_method_call", mk_issue(R.blocking_rpc_method_call))
     patch(R, "non_blocking_rpc_method_call", mk_issue(R.non_blocking_rpc_method_call))
+
+    orig_sendlock = R.QMI_RpcFuture.__dict__["send_lock_rpc_request_message"]
+
+    def send_lock(self, action):
+        if self.rpc_object_address.object_id.startswith(PROBE_PREFIX):
+            issue(self._context)
+        return orig_sendlock(self, action)
+
+    patch(R.QMI_RpcFuture, "send_lock_rpc_request_message", send_lock)
+
+    orig_rsend = M.MessageRouter.__dict__["send_message"]
+
+    def router_send(self, message):
+        me = _rt.get_ident()
+        if me in RUN.pending and type(message).__name__ in ("QMI_MethodRpcRequestMessage", "QMI_LockRpcRequestMessage") \
+                and message.destination_address.object_id.startswith(PROBE_PREFIX):
+            RUN.rid2key[message.request_id] = RUN.pending.pop(me)
+        return orig_rsend(self, message)
+
+    patch(M.MessageRouter, "send_message", router_send)
 
     # 2. hand-off to the socket thread: the ready queue of the caller's context
     orig_cst = S.SimLoop.__dict__["call_soon_threadsafe"]
@@ -268,20 +318,21 @@ def taps():
 
     patch(R._RpcThread, "__init__", rt_init)
 
-    # 7. the worker loop: handling of one request
-    orig_handle = R._RpcThread.__dict__["_handle_method_rpc_request"]
-
-    def handle_method(self, request):
-        k = _hit_key(request)
-        if k:
-            _log("handle-begin", _me(), k)
-        try:
-            return orig_handle(self, request)
-        finally:
+    # 7. the worker loop: execution of one request (any method, any lock action)
+    def mk_exec(orig):
+        def handle(self, request):
+            k = _hit_key(request)
             if k:
-                _log("finish", _me(), k)
+                _log("exec-enter", _me(), k, _what(request))
+            try:
+                return orig(self, request)
+            finally:
+                if k:
+                    _log("exec-exit", _me(), k)
+        return handle
 
-    patch(R._RpcThread, "_handle_method_rpc_request", handle_method)
+    patch(R._RpcThread, "_handle_method_rpc_request", mk_exec(R._RpcThread.__dict__["_handle_method_rpc_request"]))
+    patch(R._RpcThread, "_handle_lock_rpc_request", mk_exec(R._RpcThread.__dict__["_handle_lock_rpc_request"]))
 
     # 8. RpcObjectManager.start: the worker thread of the object
     orig_start = R.RpcObjectManager.__dict__["start"]
@@ -315,37 +366,84 @@ def taps():
 # scenarios
 # ---------------------------------------------------------------------------
 
+CALL_KINDS = ("b", "n", "g", "gn", "s", "sn", "q", "L", "U", "F")      # everything that is a request to the object
+NONBLOCKING = ("n", "gn", "sn")
+
+
 def gen_scenario(rng, big: bool = False) -> dict:
-    """contexts 1..3 (context 0 always hosts object 0), objects 1..2, callers 1..6 with programs of
-    blocking calls ("b", o), non-blocking calls ("n", o) and waits ("w", j) on the j-th non-blocking call."""
+    """contexts 1..3 (context 0 always hosts object 0), objects 1..2, callers 1..6.  A caller's program is a list of
+    [kind, o]:  b/n = blocking / non-blocking `hit`;  g/gn = `get_name`;  s/sn = `get_signals`;  q = `is_locked()`;
+    L/U/F = `lock()` / `unlock()` / `force_unlock()`;  and [w, j] = wait for the j-th non-blocking call.
+    Per object at most one caller (the lock owner) uses L/U/F, as a well-formed state machine (U and F only while it holds
+    the lock), so `force_unlock` always meets a locked object; calls of other callers may be refused while it is locked."""
     K = rng.choice([1, 2, 2, 3, 3])
     n_obj = rng.choice([1, 1, 2])
     homes = [0] + [rng.randrange(K) for _ in range(n_obj - 1)]
     n_call = rng.choice([1, 2, 2, 3, 3, 4, 5, 6])
+    owner = {o: (rng.randrange(n_call) if rng.random() < 0.6 else None) for o in range(n_obj)}
     callers = []
-    for _ in range(n_call):
+    for ci in range(n_call):
         k = rng.randrange(K)
         prog, nfut = [], 0
+        held = {o: False for o in range(n_obj)}
+
+        def nb_kind():
+            r = rng.random()
+            return "n" if r < 0.7 else ("gn" if r < 0.85 else "sn")
+
         for _ in range(rng.randint(1, 6 if big else 4)):
             o = rng.randrange(n_obj)
             r = rng.random()
-            if r < 0.30:
-                prog.append(["b", o])
-            elif r < 0.55:
-                prog.append(["n", o]); nfut += 1
-            elif r < 0.80:                      # burst of non-blocking calls, some never waited for
+            if r < 0.20:
+                prog.append([rng.choice(["b", "b", "g", "s"]), o])
+            elif r < 0.40:
+                prog.append([nb_kind(), o]); nfut += 1
+            elif r < 0.65:                      # burst of non-blocking calls, some never waited for
                 for _ in range(rng.randint(2, 4)):
-                    prog.append(["n", o if rng.random() < 0.8 else rng.randrange(n_obj)]); nfut += 1
+                    prog.append([nb_kind(), o if rng.random() < 0.8 else rng.randrange(n_obj)]); nfut += 1
+            elif r < 0.85:                      # a lock-protocol call right behind queued non-blocking calls
+                if rng.random() < 0.7:
+                    for _ in range(rng.randint(1, 3)):
+                        prog.append([nb_kind(), o]); nfut += 1
+                if owner[o] == ci:
+                    if not held[o]:
+                        prog.append(["L", o]); held[o] = True
+                    else:
+                        prog.append([rng.choice(["U", "U", "F"]), o]); held[o] = False
+                else:
+                    prog.append(["q", o])
             elif nfut:
                 prog.append(["w", rng.randrange(nfut)])
             else:
                 prog.append(["b", o])
-        callers.append({"ctx": k, "prog": prog[:10]})
-    return {"contexts": K, "objects": homes, "callers": callers}
+        prog = prog[:12]
+        callers.append({"ctx": k, "prog": prog})
+    return sanitize({"contexts": K, "objects": homes, "callers": callers})
+
+
+def sanitize(scn) -> dict:
+    """Make any (generated or shrunk) scenario well-formed for the lock protocol: per object only the first caller that
+    locks it may use L/U/F, L only while not holding, U/F only while holding (others are dropped)."""
+    owner = {}
+    out = []
+    for ci, cal in enumerate(scn["callers"]):
+        held = collections.defaultdict(bool)
+        prog = []
+        for op in cal["prog"]:
+            kind, o = op[0], op[1]
+            if kind in ("L", "U", "F"):
+                if owner.setdefault(o, ci) != ci:
+                    continue
+                if (kind == "L") == held[o]:
+                    continue
+                held[o] = (kind == "L")
+            prog.append(list(op))
+        out.append({"ctx": cal["ctx"], "prog": prog})
+    return {"contexts": scn["contexts"], "objects": list(scn["objects"]), "callers": out}
 
 
 def scenario_is_nontrivial(scn) -> bool:
-    calls = sum(1 for c in scn["callers"] for op in c["prog"] if op[0] in "bn")
+    calls = sum(1 for c in scn["callers"] for op in c["prog"] if op[0] in CALL_KINDS)
     return calls >= 2
 
 
@@ -357,51 +455,94 @@ def make_body(scn):
         Probe = probe_class()
         servers = set(homes)
         ctxs = [w.context(f"c{k}", server=(k in servers)) for k in range(K)]
-        local_proxy = {}
         for o, h in enumerate(homes):
-            local_proxy[o] = ctxs[h].make_rpc_object(f"{PROBE_PREFIX}{o}", Probe, o)
-        need = sorted({(c["ctx"], op[1]) for c in scn["callers"] for op in c["prog"] if op[0] in "bn"})
+            ctxs[h].make_rpc_object(f"{PROBE_PREFIX}{o}", Probe, o)
+        need = sorted({(c["ctx"], op[1]) for c in scn["callers"] for op in c["prog"] if op[0] in CALL_KINDS})
         connected = set()
-        proxies = {}
+        desc = {}
         for k, o in need:
             h = homes[o]
-            if k == h:
-                proxies[(k, o)] = local_proxy[o]
-                continue
-            if (k, h) not in connected:
+            if k != h and (k, h) not in connected:
                 w.connect(ctxs[k], ctxs[h])
                 connected.add((k, h))
-            proxies[(k, o)] = ctxs[k].get_rpc_object_by_name(f"c{h}.{PROBE_PREFIX}{o}")
+            desc[(k, o)] = ctxs[k].make_peer_context_proxy(f"c{h}").get_rpc_object_descriptor(f"{PROBE_PREFIX}{o}")
         _log("setup-done")
         n_calls = [0]
 
         def caller_fn(ci, cal):
             k = cal["ctx"]
+            # one proxy per (caller thread, object): lock tokens are per proxy
+            px = {o: ctxs[k].make_proxy(desc[(k, o)]) for (kk, o) in need if kk == k}
+
+            def refused(e):
+                return "locked" in str(e)
+
+            def check(kind, o, seq, r):
+                if kind in ("b", "n"):
+                    return tuple(r) == (ci, seq)
+                if kind in ("g", "gn"):
+                    return r == f"{PROBE_PREFIX}{o}"
+                if kind in ("s", "sn"):
+                    return list(r) == []
+                return True
 
             def run():
+                me = _rt.get_ident()
                 nxt = collections.Counter()
                 futs = []
                 bad = []
                 for op in cal["prog"]:
-                    if op[0] in "bn":
-                        o = op[1]
-                        seq = nxt[o]
-                        nxt[o] += 1
-                        n_calls[0] += 1
-                        _log("call", ci, o, seq, op[0])
-                        if op[0] == "b":
-                            r = proxies[(k, o)].hit(ci, seq)
-                            if tuple(r) != (ci, seq):
-                                bad.append(("b", ci, o, seq, r))
-                        else:
-                            futs.append([proxies[(k, o)].rpc_nonblocking.hit(ci, seq), (ci, seq), False])
-                    else:
+                    kind = op[0]
+                    if kind == "w":
                         j = op[1]
                         if j < len(futs) and not futs[j][2]:
                             futs[j][2] = True
-                            r = futs[j][0].wait()
-                            if tuple(r) != futs[j][1]:
-                                bad.append(("w", futs[j][1], r))
+                            _, (fk, fo, fseq), _ = futs[j]
+                            try:
+                                r = futs[j][0].wait()
+                                if not check(fk, fo, fseq, r):
+                                    bad.append(("w", fk, fo, fseq, repr(r)))
+                            except Exception as e:  # noqa
+                                if not refused(e):
+                                    bad.append(("w", fk, fo, fseq, f"{type(e).__name__}: {e}"))
+                        continue
+                    o = op[1]
+                    seq = nxt[o]
+                    nxt[o] += 1
+                    n_calls[0] += 1
+                    _log("call", ci, o, seq, kind)
+                    RUN.intent[me] = (ci, o, seq)
+                    p = px[o]
+                    try:
+                        if kind == "b":
+                            r = p.hit(ci, seq)
+                        elif kind == "n":
+                            futs.append([p.rpc_nonblocking.hit(ci, seq), (kind, o, seq), False]); continue
+                        elif kind == "g":
+                            r = p.get_name()
+                        elif kind == "gn":
+                            futs.append([p.rpc_nonblocking.get_name(), (kind, o, seq), False]); continue
+                        elif kind == "s":
+                            r = p.get_signals()
+                        elif kind == "sn":
+                            futs.append([p.rpc_nonblocking.get_signals(), (kind, o, seq), False]); continue
+                        elif kind == "q":
+                            r = p.is_locked()
+                        elif kind == "L":
+                            r = p.lock()
+                        elif kind == "U":
+                            r = p.unlock()
+                        elif kind == "F":
+                            r = p.force_unlock()
+                        else:
+                            raise ValueError(kind)
+                        if not check(kind, o, seq, r):
+                            bad.append((kind, ci, o, seq, repr(r)))
+                    except D.SchedAbort:
+                        raise
+                    except Exception as e:  # noqa
+                        if not refused(e):
+                            bad.append((kind, ci, o, seq, f"{type(e).__name__}: {e}"))
                 return bad
             return run
 
@@ -410,11 +551,11 @@ def make_body(scn):
             t.join()
         # drain: calls nobody waits for are still under way; a timed sleep fires only when nothing else can run
         for _ in range(40):
-            done = sum(1 for e in w.sched.events if e[0] == "exit")
+            done = sum(1 for e in w.sched.events if e[0] == "exec-exit")
             if done >= n_calls[0]:
                 break
             D.TIME_SHIM.sleep(0.05)
-        _log("drained", sum(1 for e in w.sched.events if e[0] == "exit"), n_calls[0])
+        _log("drained", sum(1 for e in w.sched.events if e[0] == "exec-exit"), n_calls[0])
         return [(t.value, None if t.exc is None else f"{type(t.exc).__name__}: {t.exc}") for t in ths]
 
     return body
@@ -423,8 +564,11 @@ def make_body(scn):
 def run_impl(seed, scn, policy="weighted", change_points=None, extra_trace=False):
     """Run one scenario on the real code.  Returns the simworld Outcome (events in out.sched.events)."""
     import qmi.core.rpc as R
+    global RUN
+    RUN = _RunState()
     Probe = probe_class()
-    tf = [Probe.hit]
+    # line-level yield points inside everything that executes "on the object"
+    tf = [Probe.hit, R.QMI_RpcObject.get_name, R.QMI_RpcObject.get_signals, R._RpcThread._handle_lock_rpc_request]
     if extra_trace:
         tf += [R._RpcThread.push_rpc_request, R.RpcObjectManager.handle_message]
     with taps():    # (tf was collected before the taps replaced the class attributes: the original code objects)
@@ -466,6 +610,10 @@ def to_lines(scn, events):
     finished = collections.defaultdict(list)
     for ev in events:
         t = ev[0]
+        if t in ("issue", "enqR", "send", "handle", "fifo+", "fifo-", "exec-enter", "exec-exit") and ev[2] == "?":
+            # a request to the object that no scripted call accounts for
+            lines.append(f"unaccounted-request-at-{t}"); outs.append("ok")
+            continue
         if t == "start":
             lines.append(f"start {ev[1]} {tid(ev[2])}"); outs.append("ok inv")
         elif t == "issue":
@@ -495,9 +643,12 @@ def to_lines(scn, events):
         elif t == "fifo-":
             c, o, r = ev[2]
             lines.append(f"pop {tid(ev[1])} {o} {c} {r}"); outs.append(f"ok fifo={_fmt(ev[3])} inv")
-        elif t in ("enter", "exit"):
+        elif t in ("enter", "exit"):          # the probe's own record of `hit` (observation)
             lines.append(f"{t} {tid(ev[1])} {ev[2]} {ev[3]} {ev[4]}"); outs.append("ok")
-        elif t == "finish":
+        elif t == "exec-enter":               # the request starts to execute (any method / lock action)
+            c, o, r = ev[2]
+            lines.append(f"enter {tid(ev[1])} {o} {c} {r}"); outs.append("ok")
+        elif t == "exec-exit":
             c, o, r = ev[2]
             finished[o].append((ev[2], tid(ev[1])))
             lines.append(f"finish {tid(ev[1])} {o} {c} {r}"); outs.append("ok inv")
@@ -512,11 +663,19 @@ def to_lines(scn, events):
 
 
 # ---------------------------------------------------------------------------
-# the property, evaluated directly on what the probe object saw
+# the property, evaluated directly on the execution records of every request
 # ---------------------------------------------------------------------------
 
+def _class_of(what: str) -> str:
+    return "lock" if what.startswith("lock:") else what
+
+
 def oracle(scn, events):
-    """Returns (clause, route, detail) of the first violation, or None."""
+    """Returns (clause, route, request class, detail) of the first violation, or None.
+
+    Works on `exec-enter`/`exec-exit` (wrappers around `_handle_method_rpc_request` / `_handle_lock_rpc_request`: every
+    method, every lock action, whichever thread runs them) and on the `call` records the scripted callers write before
+    each proxy call (their own issue order).  The probe's own depth counter is a second witness for overlaps."""
     homes = scn["objects"]
 
     def route(c, o):
@@ -533,31 +692,40 @@ def oracle(scn, events):
     for i, ev in enumerate(events):
         if ev[0] == "call":
             called.add((ev[1], ev[2], ev[3]))
-        elif ev[0] == "enter":
-            _, th, o, c, seq = ev
-            key = (c, o, seq)
+        elif ev[0] == "exec-enter":
+            _, th, key, what = ev
+            cls = _class_of(what)
+            if key == "?":
+                return ("phantom-execution", "unknown", cls, f"event {i}: a request ({what}) executes that no call accounts for")
+            c, o, seq = key
             if inside[o]:
-                return ("overlap", route(c, o), f"event {i}: {key} entered by {th} while {inside[o]} is inside object {o}")
-            inside[o].append((key, th))
+                return ("overlap", route(c, o), cls,
+                        f"event {i}: {key} ({what}) starts in {th} while {inside[o]} is executing on object {o}")
+            inside[o].append((key, th, what))
             if th not in threads[o]:
                 threads[o].append(th)
                 if len(threads[o]) > 1:
-                    return ("second-thread", route(c, o), f"event {i}: object {o} executed by {threads[o]}")
+                    return ("second-thread", route(c, o), cls, f"event {i}: {key} ({what}): object {o} executed by {threads[o]}")
             if key not in called:
-                return ("phantom-execution", route(c, o), f"event {i}: {key} executed but never called")
+                return ("phantom-execution", route(c, o), cls, f"event {i}: {key} ({what}) executed but never called")
             if key in seen:
-                return ("duplicate-execution", route(c, o), f"event {i}: {key} executed twice")
+                return ("duplicate-execution", route(c, o), cls, f"event {i}: {key} ({what}) executed twice")
             seen.add(key)
             if seq != nxt[(c, o)]:
-                return ("order", route(c, o),
-                        f"event {i}: caller {c} object {o}: call #{seq} executed when #{nxt[(c, o)]} was next in issue order")
+                return ("order", route(c, o), cls,
+                        f"event {i}: caller {c} object {o}: call #{seq} ({what}) executed when #{nxt[(c, o)]} was next in "
+                        f"issue order")
             nxt[(c, o)] += 1
-        elif ev[0] == "exit":
-            _, th, o, c, seq, depth = ev
-            key = (c, o, seq)
-            if depth != 1 or not inside[o] or inside[o][-1][0] != key:
-                return ("overlap", route(c, o), f"event {i}: {key} left with depth {depth}, inside={inside[o]}")
+        elif ev[0] == "exec-exit":
+            _, th, key = ev
+            if key == "?":
+                continue
+            o = key[1]
+            if not inside[o] or inside[o][-1][0] != key:
+                return ("overlap", route(key[0], o), "any", f"event {i}: {key} finished while inside={inside[o]}")
             inside[o].pop()
+        elif ev[0] == "exit" and ev[5] != 1:
+            return ("overlap", route(ev[3], ev[2]), "hit", f"event {i}: probe.hit left with depth {ev[5]}")
     return None
 
 
@@ -589,7 +757,7 @@ def completion_problem(out, events, scn):
 
 
 def _sig(v):
-    return f"{v[0]}:{v[1]}"
+    return f"{v[0]}:{v[1]}:{v[2]}"
 
 
 # ---------------------------------------------------------------------------
@@ -605,6 +773,15 @@ FIXED_SCENARIOS = [
     {"contexts": 3, "objects": [0, 1], "callers": [{"ctx": 1, "prog": [["n", 0], ["n", 1], ["n", 0], ["w", 1]]},
                                                     {"ctx": 2, "prog": [["n", 1], ["n", 0], ["b", 1]]},
                                                     {"ctx": 0, "prog": [["b", 0], ["n", 1], ["n", 0]]}]},
+    # lock-protocol requests behind queued method calls (local and remote owner), queries by another caller
+    {"contexts": 1, "objects": [0], "callers": [{"ctx": 0, "prog": [["n", 0], ["n", 0], ["L", 0], ["n", 0], ["U", 0], ["b", 0]]},
+                                                 {"ctx": 0, "prog": [["n", 0], ["q", 0], ["n", 0], ["q", 0]]}]},
+    {"contexts": 2, "objects": [0], "callers": [{"ctx": 1, "prog": [["n", 0], ["n", 0], ["L", 0], ["n", 0], ["n", 0], ["F", 0]]},
+                                                 {"ctx": 0, "prog": [["n", 0], ["n", 0], ["q", 0]]}]},
+    # inherited standard methods interleaved with the probe's own method
+    {"contexts": 2, "objects": [0], "callers": [{"ctx": 0, "prog": [["n", 0], ["gn", 0], ["n", 0], ["g", 0]]},
+                                                 {"ctx": 1, "prog": [["n", 0], ["sn", 0], ["gn", 0], ["s", 0]]},
+                                                 {"ctx": 1, "prog": [["n", 0], ["n", 0], ["g", 0]]}]},
 ]
 
 
@@ -665,7 +842,7 @@ class C03(Prop):
             case, v = self._shrink(case, v)
         res.failures.append(Failure(
             signature=_sig(v),
-            summary=f"{v[0]} ({v[1]} call): {v[2]}; scenario={case['scn']} seed={case['seed']} policy={case['policy']} "
+            summary=f"{v[0]} ({v[1]} {v[2]} call): {v[3]}; scenario={case['scn']} seed={case['seed']} policy={case['policy']} "
                     f"change_points={case['change_points']}",
             replay=case))
 
@@ -704,6 +881,9 @@ class C03(Prop):
                         c2 = dict(cal, prog=cal["prog"][:j] + cal["prog"][j + 1:])
                         cands.append(dict(scn, callers=scn["callers"][:i] + [c2] + scn["callers"][i + 1:]))
             for cand in cands:
+                cand = sanitize(cand)
+                if any(not c["prog"] for c in cand["callers"]):
+                    continue
                 r = still(cand)
                 if r:
                     cur, curv = r
@@ -716,7 +896,7 @@ class C03(Prop):
         res = Result(rule="scenario = (contexts 1..3, objects 1..2 with home contexts, 1..6 caller threads each bound to a "
                           "context with a program of blocking / non-blocking calls and waits) x schedule (seed, policy); "
                           "non-trivial = at least two calls; distinct by (scenario, seed, policy)")
-        n = ctx.scale(290, 7000)
+        n = ctx.scale(290, 6000)
         batch = []
         todo = [(f"{ctx.seed}:fix{i}:{j}", s, pol) for i, s in enumerate(FIXED_SCENARIOS)
                 for j, pol in enumerate(["weighted", "pct"] * ctx.scale(1, 4))]
@@ -757,13 +937,19 @@ class C03(Prop):
             waited = {op[1] for op in cal["prog"] if op[0] == "w"}
             nb = 0
             for op in cal["prog"]:
-                if op[0] == "b":
-                    res.count("calls_blocking")
-                elif op[0] == "n":
+                if op[0] == "w":
+                    continue
+                res.count({"b": "calls_hit_blocking", "n": "calls_hit_nonblocking", "g": "calls_get_name_blocking",
+                           "gn": "calls_get_name_nonblocking", "s": "calls_get_signals_blocking",
+                           "sn": "calls_get_signals_nonblocking", "q": "calls_is_locked", "L": "calls_lock",
+                           "U": "calls_unlock", "F": "calls_force_unlock"}[op[0]])
+                if op[0] in NONBLOCKING:
                     res.count("calls_nonblocking_waited" if nb in waited else "calls_nonblocking_never_waited")
                     nb += 1
-                if op[0] in "bn":
-                    res.count("calls_local" if cal["ctx"] == homes[op[1]] else "calls_remote")
+                res.count("calls_local" if cal["ctx"] == homes[op[1]] else "calls_remote")
+        res.count("lock_request_enqueued_behind_queued_requests",
+                  sum(1 for e in events if e[0] == "fifo+" and len(e[3]) >= 2 and any(
+                      x[0] == "exec-enter" and x[2] == e[2] and x[3].startswith("lock:") for x in events)))
         res.count("events_total", len(events))
         res.count("sched_steps_total", out.sched.steps)
         mx = 0
@@ -835,7 +1021,7 @@ class C03(Prop):
         v = self._judge(rp)
         if v is None:
             return None
-        return Failure(_sig(v), f"{v[0]} ({v[1]} call): {v[2]}", rp)
+        return Failure(_sig(v), f"{v[0]} ({v[1]} {v[2]} call): {v[3]}", rp)
 
 
 PROP = C03()
